@@ -20,6 +20,11 @@ what they were (core.factory_independent; carried by c11_inputs lines with kind=
 object AND bystanders come from FinishedPdu.success_pdu / FinishedParams.success_params / .empty / FileDataParams.empty
 (key "factory" of c11_fin / c11_fd lines), compared with the model built from the documented values of the factory.
 
+A fourth family, "alias" (op heap_alias): the aliasing clauses are theorems over the object-graph model Model/Heap.lean
+(Props/C11Heap.lean); the op compares the ALIAS GRAPH that model predicts for a scenario (setup + one library call: which of
+the named public access paths denote the same object, which pre-existing objects the call writes) with `is` and deep value
+snapshots on the real objects - see the section "heap_alias" below and DESIGN 13.10 for the comparison rule.
+
 KINDS is a table: adding a kind = one `Kind` subclass + one generator entry (+ one `Kind` record in Ops/Mutation.lean).
 """
 import copy
@@ -2158,7 +2163,8 @@ class C11(Prop):
                        "configurations through the six mutable CFDP constructors for the caller's PduConfig; every ordered pair of "
                        "entity-ID widths (same number) as consecutive EOF / Finished fault locations under every condition "
                        "code; every pool call (NAK / Keep Alive: every pair) with bystander objects for every caller direction "
-                       "x large file flag")
+                       "x large file flag; alias graphs: every scenario of the object-graph model x {PDU kind} x {CRC, large file} x "
+                       "{optional caller objects present / absent} x {every modelled setter / configuration attribute}")
     _trusted_static = [
         "object identity: the aliasing clauses ('the caller's objects are not modified', request ID / space-packet view are "
         "snapshots, factory results are independent) are theorems over the object-graph model Model/Heap.lean (Props/C11Heap.lean: "
